@@ -1,7 +1,7 @@
 use super::*;
 use crate::error::Qcow2Result;
 use crate::helpers::IntAlignment;
-use crate::meta::{Mapping, MappingSource, Table, TableEntry};
+use crate::meta::{Mapping, MappingSource, RefTableEntry, Table, TableEntry};
 use futures_locks::RwLock as AsyncRwLock;
 use std::collections::HashMap;
 use std::ops::RangeInclusive;
@@ -201,36 +201,44 @@ impl<T: Qcow2IoOps> Qcow2Dev<T> {
             log::debug!("{:?}", range);
         }
 
-        let max_allocated: u64 = {
-            // behind the *last* refcount block: the table may have holes,
-            // cluster_is_allocated() copes with them
+        // The clusters every refcount block covers; the table may have holes
+        // (empty entries followed by used ones), which cover nothing.
+        let rb_span = 1u64 << ((info.rb_index_shift as usize) + info.cluster_bits());
+        let covered: Vec<u64> = {
             let rt = self.reftable.read().await;
-            let idx = (0..rt.entries())
-                .rev()
-                .find(|idx| !rt.get(*idx).is_zero())
-                .map_or(0, |idx| idx + 1);
-
-            (idx as u64) << ((info.rb_index_shift as usize) + info.cluster_bits())
+            let mut covered = Vec::new();
+            for idx in 0..rt.entries() {
+                let entry = rt.get(idx);
+                if entry.is_zero() {
+                    continue;
+                }
+                // a table full of garbage is reported, not walked
+                RefTableEntry::try_from_plain(entry.into_plain(), info)?;
+                covered.push((idx as u64) * rb_span);
+            }
+            covered
         };
 
         log::debug!(
-            "start leak check: virt size {:x} max_allocted {:x}",
+            "start leak check: virt size {:x} refcount blocks {}",
             info.virtual_size(),
-            max_allocated
+            covered.len()
         );
-        for start in (0..max_allocated).step_by(info.cluster_size()) {
-            let allocated = self.cluster_is_allocated(start).await?;
-            if !allocated {
-                continue;
-            }
+        for rb_start in covered {
+            for start in (rb_start..rb_start + rb_span).step_by(info.cluster_size()) {
+                let allocated = self.cluster_is_allocated(start).await?;
+                if !allocated {
+                    continue;
+                }
 
-            if !Self::is_allocated_cluster_in_use(&result, start >> info.cluster_bits()) {
-                eprintln!(
-                    "cluster {:x}/{} is leaked",
-                    start,
-                    start >> info.cluster_bits()
-                );
-                res = true;
+                if !Self::is_allocated_cluster_in_use(&result, start >> info.cluster_bits()) {
+                    eprintln!(
+                        "cluster {:x}/{} is leaked",
+                        start,
+                        start >> info.cluster_bits()
+                    );
+                    res = true;
+                }
             }
         }
 
